@@ -49,7 +49,7 @@ CHECKS.update({
 })
 CHECKS.update({
  "C15": ("M", TECH_M + " with a message-level model of std::thread::scope / mpsc (every arrival order of the workers' messages is a symbolic path)",
-         "z3 decides, per path of the symbolically executed MIR of prayer_times_dt_rng_block and its closures with n = 1..5 (thorough 1..7) detected workers - every arrival order of the workers' messages, both sides of the parallelism threshold, symbolic range of up to 400 days incl. reversed and fewer days than workers - that the collector terminates (every Sender is dropped: no deadlock), nothing panics, and the collected map is the union of prayer_times_dt_rng over exactly the blocks of partition(n), each once; with C14's exact-cover and per-day obligations this is the sequential result.",
+         "z3 decides, per path of the symbolically executed MIR of prayer_times_dt_rng_block and its closures with n = 1..5 (thorough 1..7) detected workers - every arrival order of the workers' messages, both sides of the parallelism threshold, symbolic range of up to 400 days incl. reversed and fewer days than workers - that the collector terminates (every Sender is dropped: no deadlock), nothing panics, and the collected map is the union of prayer_times_dt_rng over exactly the blocks of partition(n), each once; a second family runs concrete ranges of -2..3n+2 days x thresholds 0..2 with real per-day partial maps (merge logic that inspects the partial results), again under every arrival order; with C14's exact-cover and per-day obligations this is the sequential result.",
          "BOUNDED and MODEL-LEVEL: worker counts above the bound, and the internals of std's scope/mpsc (lost wake-ups inside std) are outside - the model is their documented message-level behaviour (trusted); real schedules on this host are exercised only by a native block-vs-sequential differential with a watchdog (no schedule perturbation hooks)."),
 })
 NA = {
